@@ -74,6 +74,13 @@ fn scenarios(rng: &mut Rng) -> Vec<Scenario> {
         steps: vec![Connect(1), Sleep(j(rng, 1200, 300)), Stop, Sleep(150), Close(1)], expect: "ok" });
     v.push(Scenario { name: "stop-then-late-connection", initial: 1, max: 2, idle_s: 0, has_stop: true,
         steps: vec![Connect(1), Stop, Sleep(400), Close(1)], expect: "ok" });
+    // connections that arrive after the flag was set but before the loop looks at it (it does so on accept time-outs only) are
+    // accepted, and whatever is accepted is served
+    v.push(Scenario { name: "arrivals-right-after-stop", initial: 1, max: 4, idle_s: 0, has_stop: true,
+        steps: vec![Sleep(j(rng, 20, 60)), Stop, Connect(1), Sleep(j(rng, 20, 30)), Connect(2), Sleep(j(rng, 20, 30)), Connect(3), Sleep(j(rng, 150, 100)),
+                    Close(1), Close(2), Close(3)], expect: "ok" });
+    v.push(Scenario { name: "arrival-right-after-stop-idle1", initial: 1, max: 2, idle_s: 1, has_stop: true,
+        steps: vec![Sleep(j(rng, 100, 200)), Stop, Stream(1), Sleep(j(rng, 300, 100)), Close(1)], expect: "ok" });
     v
 }
 
